@@ -348,6 +348,18 @@ def rule4_affine(ctx, v):
         ok = lib.arg_is_field_of(f, p.args[0], 'myth_running_env.freelist_stack') and is_load_of(f, p.args[1], TH + 'stack')
         ctx.ob('C12.4', 'free: default stack returns to the stack free list', ok,
                'a default stack (word 0) is pushed, by its own address, on the releasing worker\'s stack free list', loc=p.loc)
+    # a thread that has a stack gives it back: from the non-NULL edge of the th->stack test every path to the return passes one
+    # of the two release calls, and nothing is released for a thread without a stack (the main thread)
+    rel = ff + fp
+    nts = [t_ for l in stack_loads for t_ in null_tests(f, l.id)]
+    ctx.ob('C12.4', 'free: tests whether the thread has a stack', bool(nts), 'if (th->stack)', loc=f.loc)
+    if nts and rel:
+        ok_all = all(not [r for r in f.reachable_from(lib.first_inst(f, nn), blocked=rel, include_start=True) if r.op == 'ret']
+                     for br, nn, nl in nts)
+        ok_none = all(not [x for x in f.reachable_from(lib.first_inst(f, nl), include_start=True) if x in rel] for br, nn, nl in nts)
+        ctx.ob('C12.4', 'free: every stack is handed back, and only an existing one', ok_all and ok_none,
+               'reaping makes the stack available for reuse (create/reap cycles run in bounded memory); a NULL stack is not pushed on '
+               'the free list', loc=nts[0][0].loc)
     # class index agreement
     a = ctx.need_fn(v, 'myth_flmalloc')
     b = ctx.need_fn(v, 'myth_flfree')
@@ -546,6 +558,8 @@ def run(ctx):
 SCHED = 'src/myth_sched_func.h'
 MISC = 'src/myth_misc_func.h'
 MUTANTS = [
+    {'name': 'stack released only for threads that have none (sweep M0168, passes the suite)', 'expect': 'C12.4',
+     'edits': [(SCHED, "  if (th->stack) {\n    //Add to a freelist\n    ptr = (void**)th->stack;", "  if (!(th->stack)) {\n    //Add to a freelist\n    ptr = (void**)th->stack;")]},
     {'name': 'stack released in cleanup before the final switch', 'expect': 'C12.1',
      'edits': [(SCHED, "  //Get next runnable thread\n  myth_thread_t next = myth_queue_pop(&env->runnable_q);\n\n#if MYTH_EP_PROF_DETAIL",
                 "  free_myth_thread_struct_stack(env, this_thread);\n  myth_thread_t next = myth_queue_pop(&env->runnable_q);\n\n#if MYTH_EP_PROF_DETAIL")]},
